@@ -45,7 +45,7 @@ namespace GoZero.C11
 abbrev Task := Nat
 
 inductive Ctx | ext | wait | tick | quit
-  deriving DecidableEq, Repr
+  deriving DecidableEq, Repr, Hashable
 
 inductive Pc
   | idle
@@ -56,14 +56,14 @@ inductive Pc
   | wSpin | wBarrier | wWait | wUnbarrier
   | bSelect (commanded : Bool) | bDec | bEnter | bEnterF | bDecF | bConfirm | bExec | bCall | bDone
   | bQuit | qLock | qCheck | qUnlock (stop : Bool)
-  deriving DecidableEq, Repr
+  deriving DecidableEq, Repr, Hashable
 
 structure Thread where
   pc   : Pc := .idle
   reg  : List Task := []      -- the batch this goroutine holds (vals / tasks)
   last : Nat := 0             -- flusher's `last`
   snap : List Task := []      -- ghost: `added` at the moment this goroutine called Wait
-  deriving DecidableEq, Repr
+  deriving DecidableEq, Repr, Hashable
 
 structure St where
   thr       : List Thread
@@ -79,7 +79,7 @@ structure St where
   added     : List Task := []   -- ghost: tasks accepted by AddTask, in order
   finished  : List Task := []   -- ghost: tasks whose callback has returned (or panicked)
   lost      : List Task := []   -- ghost: tasks of batches whose callback panicked (⊆ finished)
-  deriving DecidableEq, Repr
+  deriving DecidableEq, Repr, Hashable
 
 structure Cfg where
   full     : List Task → Bool    -- AddTask's answer on the container *after* the append
